@@ -133,6 +133,7 @@ fn run_event(u: &Universe, probes: &[P], re: &mut ReManager, e: &Ev) -> (usize, 
 
 /// one history followed by one probe, on a fresh manager
 fn c07_case(u: &Universe, probes: &[P], refs: &[Arc<Dfa>], hist: &[Ev], probe: usize, rep: &mut Report) -> Option<String> {
+    publish_case(|| json!({"history": hist.iter().map(ev_json).collect::<Vec<_>>(), "probe": probe}));
     let r = guarded(|| {
         let mut local = Report::new();
         let mut re = ReManager::new();
@@ -151,15 +152,44 @@ fn c07_case(u: &Universe, probes: &[P], refs: &[Arc<Dfa>], hist: &[Ev], probe: u
         if !std::ptr::eq(t, t2) || t != t2 {
             return (Some(format!("two consecutive constructions of {} returned different terms", probes[probe].show())), local);
         }
-        // == only for the same object
+        // == only for the same object: over the roots of the history, the probe, its complement, every derivative of
+        // the probe and the complements of those (terms reached by different routes)
         let mut terms: Vec<RegLan> = built.iter().map(|x| x.1).collect();
         terms.push(t);
+        let ds: Vec<usize> = re.iter_derivatives(t).map(ptr).collect();
+        local.add("derivative_terms_compared", ds.len() as u64);
+        for &d in ds.iter().take(24) {
+            let d = as_re(d);
+            let cd = re.complement(d);
+            if !std::ptr::eq(re.complement(cd), d) || std::ptr::eq(cd, d) || cd == d {
+                return (Some(format!("complement is not an involution without fixed point on the derivative {} of {}", d, t)), local);
+            }
+            terms.push(d);
+            terms.push(cd);
+        }
         for x in &terms {
             for y in &terms {
                 if (*x == *y) != std::ptr::eq(*x, *y) {
                     return (Some(format!("terms {} and {}: == is {} but pointer identity is {}", x, y, *x == *y, std::ptr::eq(*x, *y))), local);
                 }
             }
+        }
+        // hash-consing of every sub-term: each operand program of the probe, re-issued twice after the history
+        for sp in probes[probe].subprograms() {
+            let s1 = build_mgr(u, &mut re, &sp);
+            let s2 = build_mgr(u, &mut re, &sp);
+            if !std::ptr::eq(s1, s2) || s1 != s2 {
+                return (Some(format!("two consecutive constructions of the operand {} returned different terms", sp.show())), local);
+            }
+            let cs = re.complement(s1);
+            if !std::ptr::eq(re.complement(cs), s1) || std::ptr::eq(cs, s1) {
+                return (Some(format!("complement is not an involution without fixed point on the operand term {}", s1)), local);
+            }
+        }
+        // and the probe itself is still the same term after all of that
+        let t3 = build_mgr(u, &mut re, &probes[probe]);
+        if !std::ptr::eq(t, t3) {
+            return (Some(format!("building {} once more (after its operands and derivatives) returned a different term", probes[probe].show())), local);
         }
         // complement is an involution without fixed points
         let c = re.complement(t);
@@ -174,6 +204,9 @@ fn c07_case(u: &Universe, probes: &[P], refs: &[Arc<Dfa>], hist: &[Ev], probe: u
         // history-free reference
         let rf = &refs[probe];
         let pr = product_terms(u, &mut re, t, rf, rf.init);
+        if pr.capped {
+            local.inc("caps_hit");
+        }
         local.add("states", pr.nodes.len() as u64);
         local.add("transitions", pr.transitions);
         local.add("impl_traces", pr.transitions);
@@ -199,6 +232,7 @@ fn c07_case(u: &Universe, probes: &[P], refs: &[Arc<Dfa>], hist: &[Ev], probe: u
         }
         (None, local)
     });
+    unpublish_case();
     match r {
         Ok((m, local)) => {
             rep.merge(local);
@@ -285,7 +319,8 @@ fn c07_histories(tier: Tier, np: usize, f: &mut dyn FnMut(usize, &[Ev])) {
     let builds: Vec<Ev> = (0..np).map(Ev::Build).collect();
     f(idx, &[]);
     idx += 1;
-    let (evs, depth): (&Vec<Ev>, usize) = if tier == Tier::Thorough { (&all, 3) } else { (&be, 2) };
+    let _ = &be;
+    let (evs, depth): (&Vec<Ev>, usize) = if tier == Tier::Thorough { (&all, 3) } else { (&all, 2) };
     // all sequences up to `depth` over the event menu
     let mut cur: Vec<Vec<Ev>> = vec![vec![]];
     for _ in 0..depth {
@@ -302,6 +337,22 @@ fn c07_histories(tier: Tier, np: usize, f: &mut dyn FnMut(usize, &[Ev])) {
         cur = nx;
     }
     drop(cur);
+    // long histories: every probe explored and differentiated in one manager, in every rotation of the probe order
+    // and in the reverse orders (identity and language after many unrelated terms and a full derivative cache)
+    for rot in 0..np {
+        for rev in [false, true] {
+            let order: Vec<usize> = (0..np).map(|i| if rev { (rot + np - i) % np } else { (rot + i) % np }).collect();
+            let mut h: Vec<Ev> = vec![];
+            for &p in &order {
+                h.push(Ev::Explore(p));
+                if p % 2 == rot % 2 {
+                    h.push(Ev::Derive(p, A));
+                }
+            }
+            f(idx, &h);
+            idx += 1;
+        }
+    }
     // one level deeper over Build events only
     let extra = depth + 1;
     let mut cur: Vec<Vec<Ev>> = vec![vec![]];
@@ -333,10 +384,10 @@ impl Engine for C07Engine {
         c07_histories(ctx.tier, np, &mut |_, _| n += 1);
         Meta {
             level: "model_checking",
-            rule: format!("states = histories of a manager: every sequence of build / explore (build, compile, is_empty_re) / derive events over {} probe programs up to the stated depth ({} histories), each replayed on a FRESH manager and followed by each of the {} probes; invariant evaluated after every history: re-issuing a construction returns the identical term (== and pointer), == holds only for identical objects, complement is an involution without fixed point, and the language of the result (product BFS of its derivative graph and of its compiled automaton with the history-free reference DFA) is the construction's; the thread-local manager of the wrappers is driven through histories in fresh OS threads; non-trivial = (history, probe) runs with a non-empty history", np, n, np),
+            rule: format!("states = histories of a manager: every sequence of build / explore (build, compile, is_empty_re) / derive events over {} probe programs up to the stated depth ({} histories), each replayed on a FRESH manager and followed by each of the {} probes; invariant evaluated after every history: re-issuing a construction (the probe and each of its operand programs) returns the identical term (== and pointer), == holds only for identical objects among the roots, the probe, its derivatives and their complements, complement is an involution without fixed point on all of them, and the language of the result (product BFS of its derivative graph and of its compiled automaton with the history-free reference DFA) is the construction's; the thread-local manager of the wrappers is driven through histories in fresh OS threads; non-trivial = (history, probe) runs with a non-empty history", np, n, np),
             assumptions: vec!["reference DFA of each probe is computed without any manager".into(), "probes share sub-terms, complements and the manager's predefined terms so that operand ids collide".into()],
             exhaustive: true,
-            space: format!("{}: all event sequences of length <= {} over {} events, plus all sequences of {} build events", ctx.tier.name(), if ctx.tier == Tier::Thorough { 3 } else { 2 }, if ctx.tier == Tier::Thorough { 3 * np } else { 2 * np }, if ctx.tier == Tier::Thorough { 4 } else { 3 }),
+            space: format!("{}: all event sequences of length <= {} over {} events, plus all sequences of {} build events, plus 2 x {} long histories (every probe explored, half of them differentiated, in every rotation of the probe order and its reverse)", ctx.tier.name(), if ctx.tier == Tier::Thorough { 3 } else { 2 }, 3 * np, if ctx.tier == Tier::Thorough { 4 } else { 3 }, np),
         }
     }
     fn num_batches(&self, _ctx: &Ctx) -> usize {
@@ -404,6 +455,9 @@ impl Engine for C07Engine {
                 }
             }
         }
+    }
+    fn hang_is_violation(&self, _p: &str) -> bool {
+        true
     }
     fn replay(&self, _ctx: &Ctx, c: &Value, rep: &mut Report) {
         let u = Universe::new(0);
@@ -578,7 +632,9 @@ fn c10_expected(u: &Universe, rf: &Dfa, s: &[u32], t: &[u32]) -> (Vec<u32>, Vec<
 fn c10_check(u: &Universe, p: &P, rf: &Dfa, tw: RegLan, s: &[u32], t: &[u32]) -> Option<String> {
     let (e1, e2) = c10_expected(u, rf, s, t);
     let (ms, mt) = (sword(s), sword(t));
+    publish_case(|| json!({"universe": u.id, "prog": p.show(), "s": s, "t": t}));
     let r = guarded(|| (wr::str_replace_re(&ms, tw, &mt), wr::str_replace_re_all(&ms, tw, &mt)));
+    unpublish_case();
     match r {
         Err(e) => Some(format!("str_replace_re(_all)({}, {}, {}) {}", show_word(s), p.show(), show_word(t), e)),
         Ok((g1, g2)) => {
@@ -656,6 +712,10 @@ impl Engine for C10Engine {
             }
         }
     }
+    fn hang_is_violation(&self, _p: &str) -> bool {
+        // "returns exactly ..." and "continues after it": a replace call that does not return is a violation
+        true
+    }
     fn replay(&self, _ctx: &Ctx, c: &Value, rep: &mut Report) {
         let u = Universe::new(c["universe"].as_u64().unwrap_or(0) as usize);
         let p = match P::parse(c["prog"].as_str().unwrap_or("")) {
@@ -689,6 +749,8 @@ struct C16Pool {
     /// programs that take part in the union checks
     short: Vec<usize>,
     extras: Vec<usize>,
+    family: usize,
+    tier: &'static str,
 }
 
 fn c16_pool(tier: Tier, family: usize) -> C16Pool {
@@ -901,7 +963,7 @@ fn c16_pool(tier: Tier, family: usize) -> C16Pool {
         });
         lang.push(id);
     }
-    C16Pool { u, progs, lang, dfas, short, extras }
+    C16Pool { u, progs, lang, dfas, short, extras, family, tier: tier.name() }
 }
 
 pub struct C16Engine;
@@ -909,7 +971,9 @@ const C16_NB: usize = 128;
 const C16_FAMILIES: usize = 5;
 
 fn c16_pair(pool: &C16Pool, re: &mut ReManager, terms: &[RegLan], i: usize, j: usize, memo: &mut HashMap<(usize, usize), bool>) -> (bool, Option<String>) {
+    publish_case(|| json!({"kind": "pair", "family": pool.family, "tier": pool.tier, "i": i, "j": j, "r": pool.progs[i].show(), "s": pool.progs[j].show()}));
     let claimed = terms[i].included_in(terms[j]);
+    unpublish_case();
     if !claimed {
         return (false, None);
     }
@@ -930,6 +994,7 @@ fn c16_pair(pool: &C16Pool, re: &mut ReManager, terms: &[RegLan], i: usize, j: u
 /// union / union_list of two or three pool programs must denote the union (operands built on a fresh manager,
 /// so that the case is self-contained)
 fn c16_union(pool: &C16Pool, idx: &[usize], rep: &mut Report) -> Option<String> {
+    publish_case(|| json!({"kind": "union", "progs": idx.iter().map(|&i| pool.progs[i].show()).collect::<Vec<_>>()}));
     let r = guarded(|| {
         let mut re = ReManager::new();
         let ts: Vec<RegLan> = idx.iter().map(|&i| build_mgr(&pool.u, &mut re, &pool.progs[i])).collect();
@@ -944,6 +1009,10 @@ fn c16_union(pool: &C16Pool, idx: &[usize], rep: &mut Report) -> Option<String> 
     match r {
         Err(e) => Some(format!("union of {:?}: {}", idx.iter().map(|&i| pool.progs[i].show()).collect::<Vec<_>>(), e)),
         Ok((t, pr)) => {
+            unpublish_case();
+            if pr.capped {
+                rep.inc("caps_hit");
+            }
             rep.add("states", pr.nodes.len() as u64);
             rep.add("transitions", pr.transitions);
             rep.add("impl_traces", pr.transitions);
@@ -1024,6 +1093,9 @@ impl Engine for C16Engine {
             }
         }
     }
+    fn hang_is_violation(&self, _p: &str) -> bool {
+        true
+    }
     fn replay(&self, _ctx: &Ctx, c: &Value, rep: &mut Report) {
         rep.inc("evaluations");
         if c["kind"] == "pair" {
@@ -1050,7 +1122,7 @@ impl Engine for C16Engine {
             return;
         }
         let dfas: Vec<Arc<Dfa>> = progs.iter().map(|p| cache.dfa(p)).collect();
-        let pool = C16Pool { u: u.clone(), lang: (0..progs.len()).collect(), dfas, progs, short: vec![], extras: vec![] };
+        let pool = C16Pool { u: u.clone(), lang: (0..progs.len()).collect(), dfas, progs, short: vec![], extras: vec![], family: 0, tier: "quick" };
         let idx: Vec<usize> = (0..pool.progs.len()).collect();
         if let Some(m) = c16_union(&pool, &idx, rep) {
             rep.violation("C16", "c16", c.clone(), m);
